@@ -231,14 +231,22 @@ pub fn gen_compress_message(src: &mut Src) -> (Message, &'static str) {
     }
     // in-order pass (so that nesting builds up), then random repeats
     let in_order = src.chance(200);
+    let nest_one_section = src.chance(200);
     let total = if in_order { names.len() } else { src.range(1, names.len().min(60)) };
     for i in 0..total {
         let owner = if in_order { names[i].clone() } else { src.pick(&names).clone() };
-        let r = mk(owner, src, &names);
-        match src.below(3) {
-            0 => m.an.push(r),
-            1 => m.ns.push(r),
-            _ => m.ar.push(r),
+        // RRsets: one to three consecutive records with the same owner
+        let copies = if src.chance(70) { src.range(2, 3) } else { 1 };
+        // the nesting family keeps its records in wire order (one section) most of the time, so that the
+        // chain really builds up to (and beyond) the limit of 16
+        let sec = if fam == 1 && nest_one_section { 0 } else { src.below(3) };
+        for _ in 0..copies {
+            let r = mk(owner.clone(), src, &names);
+            match sec {
+                0 => m.an.push(r),
+                1 => m.ns.push(r),
+                _ => m.ar.push(r),
+            }
         }
     }
     let repeats = src.range(0, 12);
